@@ -184,5 +184,21 @@ MUTANTS = {
         ("twin: p > U", DG, "flips = (noise < self.crossover_prob).float()", "flips = (self.crossover_prob > noise).float()", "silent"),
         ("twin: bernoulli", DG, "erasure_mask = torch.rand_like(x.float()) < self.erasure_prob", "erasure_mask = torch.rand_like(x.float()) < self.erasure_prob  # same", "silent"),
     ],
+    "C13": [
+        ("rayleigh not normalised", AN, "            h = torch.complex(h_real, h_imag) / (2**0.5)\n\n        elif self.fading_type == \"rician\":", "            h = torch.complex(h_real, h_imag)\n\n        elif self.fading_type == \"rician\":", "violation", "GAIN"),
+        ("rician LOS uses K only", AN, "los_magnitude = torch.sqrt(k / (k + 1))", "los_magnitude = torch.sqrt(k / (k + 2))", "violation", "GAIN"),
+        ("rician scatter not split", AN, "scattered_magnitude = torch.sqrt(1 / (k + 1)) / (2**0.5)", "scattered_magnitude = torch.sqrt(1 / (k + 1))", "violation", "GAIN"),
+        ("rician LOS amplitude not sqrt", AN, "los_magnitude = torch.sqrt(k / (k + 1))", "los_magnitude = k / (k + 1)", "violation", "GAIN"),
+        ("modulo instead of floor division", AN, "block_indices = torch.arange(seq_length, device=device) // self.coherence_time", "block_indices = torch.arange(seq_length, device=device) % self.coherence_time", "violation", "BLOCKS"),
+        ("floor instead of ceil blocks", AN, "num_blocks = (seq_length + self.coherence_time - 1) // self.coherence_time", "num_blocks = seq_length // self.coherence_time", "violation", "BLOCKS"),
+        ("shared coefficients across batch", AN, "            h_real = torch.randn(batch_size, num_blocks, device=device)\n            h_imag = torch.randn(batch_size, num_blocks, device=device)\n            h = torch.complex(h_real, h_imag) / (2**0.5)", "            h_real = torch.randn(1, num_blocks, device=device).expand(batch_size, num_blocks)\n            h_imag = torch.randn(batch_size, num_blocks, device=device)\n            h = torch.complex(h_real, h_imag) / (2**0.5)", "violation", "BLOCKS"),
+        ("row expanded from row 0", AN, "h_expanded[b] = h[b, block_indices]", "h_expanded[b] = h[0, block_indices]", "violation", "BLOCKS"),
+        ("csi normalised", AN, "            # Use the provided CSI\n            h = csi", "            # Use the provided CSI\n            h = csi / torch.abs(csi).mean()", "violation", "FORWARD"),
+        ("noise override halved", AN, "        if noise is not None:\n            y = y + noise\n        else:", "        if noise is not None:\n            y = y + 0.5 * noise\n        else:", "violation"),
+        ("1-D shape not restored", AN, "        elif is_1d:\n            # Remove the batch dimension we added for 1D inputs\n            y = y.squeeze(0)", "        elif is_1d and y.shape[-1] > 1:\n            # Remove the batch dimension we added for 1D inputs\n            y = y.squeeze(0)", "violation", "FORWARD"),
+        ("fading applied twice", AN, "        # Apply fading\n        y = h * x", "        # Apply fading\n        y = h * h * x", "violation", "FORWARD"),
+        ("twin: x*h", AN, "        # Apply fading\n        y = h * x", "        # Apply fading\n        y = x * h", "silent"),
+        ("twin: sqrt(0.5) factor", AN, "            h = torch.complex(h_real, h_imag) / (2**0.5)\n\n        elif self.fading_type == \"rician\":", "            h = torch.complex(h_real, h_imag) * (0.5**0.5)\n\n        elif self.fading_type == \"rician\":", "silent"),
+    ],
 }
 
